@@ -120,6 +120,14 @@ func TestC13(t *testing.T) {
 			var outs [2][]byte
 			var errs [2]error
 			var pan any
+			// the salt is an ordinary caller slice: cut from a larger buffer (64
+			// spare bytes behind it, filled with a sentinel) and used for both calls
+			var salt, saltBuf []byte
+			if salts[in.si] != nil {
+				saltBuf = bytes.Repeat([]byte{0x5C}, len(salts[in.si])+64)
+				copy(saltBuf, salts[in.si])
+				salt = saltBuf[:len(salts[in.si])]
+			}
 			for r := 0; r < 2 && pan == nil; r++ {
 				out := make([]byte, n)
 				if r == 1 {
@@ -128,10 +136,6 @@ func TestC13(t *testing.T) {
 					for i := range out {
 						out[i] = 0xAA
 					}
-				}
-				var salt []byte
-				if salts[in.si] != nil {
-					salt = append([]byte{}, salts[in.si]...)
 				}
 				pan = enum.Try(func() { errs[r] = peer.DeriveKey(ctxs[in.ci], salt, keys[in.ki].Priv, out) })
 				outs[r] = out
